@@ -306,6 +306,25 @@ def body(check):
     check.guarded("POINTWISE", "numflux", lambda: pointwise(check, proj))
     check.guarded("FLUX-SINGLE", "modeldisc", lambda: flux_single(check, proj))
     check.guarded("WALL-ZERO", "bc_sym", lambda: wall_zero(check, proj))
+    # ... and the pair that meets at a wall face is (interior FACE state, bc(that same state)): the
+    # decoded call sites of calc_bc, 1D and 2D (same obligations as C16 / C15)
+    from . import c16, c15
+    check.guarded("WALL-SITE", "modeldisc.fvm1d.calc_bc", lambda: c16.sites_1d(check, proj, "WALL-SITE"))
+    n0 = len(check.obs)
+    check.guarded("WALL-SITE", "modeldisc.fvm2dcart.calc_bc", lambda: c15.bc_sites(check))
+    for o in check.obs[n0:]:
+        if o.rule == "BC-2D-SITE":
+            o.rule = "WALL-SITE"
+    check.obs[n0:] = [o for o in check.obs[n0:] if o.key != "normal-dtype"]       # the dtype of the normals is C15 / C16's clause
+    # "... and the declared source terms": each declared source reaches its own equation exactly once
+    # (same obligations as C19: add_source 1D / 2D, rhs wiring, nozzle composition)
+    from . import c19
+    n1 = len(check.obs)
+    check.guarded("SRC-DECLARED", "modeldisc.add_source", lambda: c19.src_once(check, proj))
+    check.guarded("SRC-DECLARED", "euler.nozzle", lambda: c19.noz_compose(check, proj))
+    for o in check.obs[n1:]:
+        if o.rule in ("SRC-ONCE", "NOZ-COMPOSE"):
+            o.rule = "SRC-DECLARED"
     check.guarded("UPDATE-LINEAR", "integration", lambda: update_linear(check, proj))
     # implicit family: what conservation needs of the linear system (any theta, any xi)
     for c in c06.implicit_classes(proj):
